@@ -125,10 +125,10 @@ def from_duration(data: timedelta):
 
 @register_encoder(time)
 def from_time(data: time):
-    r = data.isoformat()
     if data.microsecond:
-        r = r[:12]
-    return r
+        # millisecond precision; keeps the UTC offset of an aware time (slicing the string dropped it)
+        return data.isoformat(timespec="milliseconds")
+    return data.isoformat()
 
 
 @register_encoder(uuid.UUID)
